@@ -369,6 +369,10 @@ fn parse_helper(pat: &mut &str, result: &mut Vec<Atom>) -> Result<(), PatError> 
 			b'|' => {
 				// Should already have started a subpattern
 				let sub = subs.last_mut().ok_or(PatError::SubPattern)?;
+				// Recursive operators must be balanced within the alternative
+				if depth != sub.depth {
+					return Err(PatError::StackError);
+				}
 				// Update the save state
 				sub.save_next = cmp::max(sub.save_next, save);
 				save = sub.save;
@@ -389,6 +393,10 @@ fn parse_helper(pat: &mut &str, result: &mut Vec<Atom>) -> Result<(), PatError> 
 			b')' => {
 				// Should already have started a subpattern
 				let sub = subs.pop().ok_or(PatError::SubPattern)?;
+				// Recursive operators must be balanced within the alternative
+				if depth != sub.depth {
+					return Err(PatError::StackError);
+				}
 				// Prepare for the next save
 				save = cmp::max(sub.save_next, save);
 				depth = sub.depth;
